@@ -129,9 +129,14 @@ mutual
     | f :: fs => max (FileInfo.depth f) (FileInfo.depthList fs)
 end
 
-/-- enough fuel for every call chain when `sections_subgroups` is acyclic. -/
+/-- every section that occurs as a sub-group of some section. -/
+def subgroupValues (seg : Segment) : List Str := (seg.sectionsSubgroups.map (·.2)).flatten
+
+/-- enough fuel for every call chain: below one file the chain of sub-group descents cannot be
+longer than the number of sub-group sections + 1 (the cycle guard stops a repeated section),
+and every descent into a group starts a new chain (`C19.never_diverges`). -/
 def fuelFor (seg : Segment) : Nat :=
-  seg.sectionsSubgroups.length + FileInfo.depthList seg.files + 2
+  FileInfo.depthList seg.files * ((subgroupValues seg).length + 2) + 1
 
 /-- `emit_section`. -/
 def emitSection (cx : Ctx) (seg : Segment) (sec : Str) (sections : List Str) : R (List Line) :=
